@@ -3,7 +3,7 @@
    obligation: a source edit that changes a skeleton breaks the obligation and every theorem below. *)
 From Coq Require Import List Arith NArith ZArith Lia Bool.
 From GoMC Require Import Model.C20_syntax Gen.Queue Model.C20 Proofs.C20 Proofs.C20_fifo Proofs.C20_ll Proofs.C20_ch
-  Proofs.C20_plist Proofs.C20_pool Proofs.C20_term Proofs.C20_ch_term Proofs.C20_cache Proofs.C20_order Proofs.C20_locks.
+  Proofs.C20_plist Proofs.C20_pool Proofs.C20_term Proofs.C20_ch_term Proofs.C20_cache Proofs.C20_order Proofs.C20_locks Proofs.C20_conn.
 Import ListNotations.
 
 Definition reachable (P : progs) (capacity : nat) (scripts : list (list op)) (s : state) : Prop :=
